@@ -14,7 +14,7 @@ man = {
  "engines": [{"name": "gosym", "path": "/verif/engine", "serves_properties": [p for p in props if p in checks and p in claims],
               "kind_free_text": "own symbolic executor for go/ssa (x/tools v0.50.0): bit-vector expressions, byte-addressed memory, path exploration by re-execution, z3 -in (QF_BV) decides branches and assertions; nondeterministic OS model (files, mmap, flock, durability, faults, clock, goroutine scheduling)"}],
  "checks": [], "not_applicable": [],
- "notes": "Every check regenerates its encoding from /repo's working tree (go/packages + go/ssa) on each run. Exit 0 = held within the stated bounds; 1 = VIOLATION (counterexample re-executed concretely in the engine and, where natively reproducible, by go test -overlay against the real build); 2 = inconclusive (solver unknown, unsupported construct, vacuous harness, harness no longer compiles).",
+ "notes": "Every check first validates the translator and the OS model: concrete self-test histories run in the engine and natively (digests of all observations must agree) and the engine's I/O event trace must equal the strace log of the native run; the thorough tier replays worker solver scripts on z3 5.x and cvc5 and fails on any sat/unsat disagreement. Every check regenerates its encoding from /repo's working tree (go/packages + go/ssa) on each run. Exit 0 = held within the stated bounds; 1 = VIOLATION (counterexample re-executed concretely in the engine and, where natively reproducible, by go test -overlay against the real build); 2 = inconclusive (solver unknown, unsupported construct, vacuous harness, harness no longer compiles).",
 }
 for p in props:
     if p in checks and p in claims:
